@@ -25,7 +25,7 @@ ASSUMPTIONS = [
 ]
 GATES = {
     "median_two_blocks_both_axes": 1, "bilateral_two_blocks_both_axes": 1, "window_with_only_the_centre_valid": 1,
-    "even_bilateral_width": 1, "image_smaller_than_nominal_width": 1, "median_for_intervals_runs": 2,
+    "even_bilateral_width": 1, "invalid_area_larger_than_100x100": 1, "image_smaller_than_nominal_width": 1, "median_for_intervals_runs": 2,
     "pipeline_filter_steps": 5, "pixels_judged": 100000, "image_smaller_than_median_window": 1, "regularisation_applied_on_pixels_already_flagged": 1,
 }
 INVALID = 0b1111000011
@@ -55,6 +55,8 @@ def cases(spec, ctx):
         yield {"work": "synth", "part": "d", "i": 0, "force": {"method": "median", "shape": [201, 203], "fs": 3}}
         yield {"work": "synth", "part": "d", "i": 1, "force": {"method": "bilateral", "shape": [101, 104], "ss": 1.0}}
         yield {"work": "synth", "part": "d", "i": 2, "force": {"method": "bilateral", "shape": [9, 30], "ss": 1.4}}   # width 5
+        yield {"work": "synth", "part": "d", "i": 20, "force": {"method": "bilateral", "shape": [125, 240], "ss": 2.0, "layout": "large-area", "area": [112, 115]}}
+        yield {"work": "synth", "part": "d", "i": 21, "force": {"method": "median", "shape": [215, 130], "fs": 5, "layout": "large-area", "area": [204, 101]}}
         yield {"work": "synth", "part": "d", "i": 3, "force": {"method": "bilateral", "shape": [12, 9], "ss": 1.0}}   # even width 4
         yield {"work": "synth", "part": "d", "i": 4, "force": {"method": "bilateral", "shape": [6, 7], "ss": 6.0}}    # width > image
         yield {"work": "synth", "part": "d", "i": 5, "force": {"method": "median", "shape": [2, 7], "fs": 3}}
@@ -198,7 +200,7 @@ def run_case(case, ctx):
             W = int(rng.choice([5, 9, 51, 101]))
     step = float(rng.choice([1, 0.5, 0.25, 0.1]))
     d = (rng.integers(-40, 41, (H, W)) * step).astype(np.float32)
-    lay = ["none", "sparse", "dense", "blocks", "almost-all"][int(rng.integers(0, 5))]
+    lay = f.get("layout") or ["none", "sparse", "dense", "blocks", "almost-all", "large-area"][int(rng.integers(0, 6))]
     m = np.zeros((H, W), np.uint16)
     bad_vals = np.array([1, 2, 64, 128, 256, 512, 66, 258], np.uint16)
     info_vals = np.array([0, 0, 0, 4, 8, 16, 32, 2048, 12], np.uint16)
@@ -216,6 +218,17 @@ def run_case(case, ctx):
     elif lay == "almost-all":
         sel = rng.random((H, W)) < 0.93
         m[sel] = rng.choice(bad_vals, int(sel.sum()))
+    elif lay == "large-area":
+        # one large invalid area (no-data corner of a tile, masked water / cloud), a few invalid pixels elsewhere
+        hh, ww = int(rng.integers(max(1, H // 3), max(2, H * 3 // 4 + 1))), int(rng.integers(max(1, W // 3), max(2, W * 3 // 4 + 1)))
+        if f.get("area"):
+            hh, ww = f["area"]
+        y = [0, H - hh, int(rng.integers(0, H - hh + 1))][int(rng.integers(0, 3))]
+        x = [0, W - ww, int(rng.integers(0, W - ww + 1))][int(rng.integers(0, 3))] if not f.get("area") else 0
+        m[y:y + hh, x:x + ww] = rng.choice(np.array([1, 2, 64], np.uint16), (hh, ww))
+        sel = rng.random((H, W)) < 0.02
+        m[sel] = rng.choice(bad_vals, int(sel.sum()))
+        ctx.gate("invalid_area_larger_than_100x100", int(hh >= 100 and ww >= 100 and W - ww > 60))
     if f.get("lonely"):
         m[:] = 2
         m[4, 4] = 0
